@@ -34,7 +34,14 @@ def oracle(case, a):
             return "while %s is held at its primitive call %d (holding the lock), the concurrently issued %s made progress: %s" % (case.ops[ai][0], k, bop[0], p)
     if p.get("locked") == "true":
         return "the mutex is still held after both operations returned"
-    return bfsprops.c01_oracle(case, a)
+    m = bfsprops.c01_oracle(case, a)
+    if m and aop[0] in ("create", "openwrite") and bop[0] == "rollback":
+        # A = Create/OpenFile followed by writes through the returned handle, which lie outside
+        # the critical section; the concurrent B is a Rollback, which runs as soon as A's locked
+        # part has returned, i.e. possibly before A's writes: the API-level order is then
+        # Create; Rollback; Write through the old handle - recorded finding K7
+        return (m, ["handle_write_after_rollback"])
+    return m
 
 
 def run(ctx):
@@ -68,6 +75,12 @@ def run(ctx):
     # the model runs the same two operations one after the other: with mutual exclusion the
     # concurrent run must have the results and the final tree of the serial run A;B
     mcases = [c for c in cases if c.ops[c.meta["pause"][2]][0] in LOCKED]
+    for c in mcases:
+        if c.ops[c.meta["pause"][0]][0] in ("create", "openwrite"):
+            # the writes through the handle A obtained lie outside the critical section: once A's
+            # locked part has returned, B runs concurrently with them, so the trees (not the lock
+            # discipline, not the final restoration) depend on the interleaving: oracle only
+            c.meta["twin"] = True
     r = worldrun.run_stream("C10", "held_lock", mcases, model_ok, level=1, oracle=oracle, do_shrink=False,
                             triggers=(lambda case, a, b: sorted(b["F"]) if b else []),
                             nontrivial=lambda c, a: (a.get("P") or {}).get("held") == "true",
